@@ -77,6 +77,19 @@ class HoloPyObject(Serializable):
                 if isinstance(item, np.ndarray) and item.ndim == 1:
                     item = list(item)
                 yield var, item
+            elif self._is_explicit_none(var):
+                yield var, None
+
+    def _is_explicit_none(self, var):
+        # an argument set to None whose default is something else must be
+        # recorded, or the default would silently come back on reload
+        code = self.__init__.__code__
+        names = code.co_varnames[1:code.co_argcount]
+        defaults = self.__init__.__defaults__ or ()
+        if var not in names or var not in vars(self):
+            return False
+        position = names.index(var) - (len(names) - len(defaults))
+        return position >= 0 and defaults[position] is not None
 
     @classmethod
     def to_yaml(cls, dumper, data):
